@@ -129,13 +129,76 @@ func c15Run(steps []c15Step) *Case {
 	return c
 }
 
+// c15Solo: the cache model's own stream — histories over two plain files rendered through Vue.Render (the cached path)
+func c15Solo(r *Run, n int) {
+	files := []string{"a.vuego", "b.vuego"}
+	for i := 0; i < n; i++ {
+		mfs := fstest.MapFS{}
+		v := vuego.NewVue(mfs)
+		var ops []any
+		var outs []any
+		version := 0
+		hi, lo := int64(1700000000), int64(1700000000)
+		for k := 3 + r.Rng.Intn(10); k > 0; k-- {
+			f := files[r.Rng.Intn(2)]
+			switch x := r.Rng.Intn(10); {
+			case x < 4:
+				var buf bytes.Buffer
+				if err := v.Render(&buf, f, map[string]any{}); err != nil {
+					outs = append(outs, nil)
+				} else {
+					var got int
+					fmt.Sscanf(strings.TrimSpace(buf.String()), "<p>v%d</p>", &got)
+					outs = append(outs, got)
+				}
+				ops = append(ops, map[string]any{"op": "render", "file": f})
+			case x < 8:
+				version++
+				content := version
+				src := fmt.Sprintf("<p>v%d</p>", version)
+				if r.Rng.Intn(5) == 0 {
+					content = 0
+					src = "---\n: : bad: [yaml\n---\n<p>broken</p>"
+				}
+				var mt int64
+				if r.Rng.Intn(3) == 0 {
+					lo -= 7
+					mt = lo
+				} else {
+					hi += 7
+					mt = hi
+				}
+				mfs[f] = &fstest.MapFile{Data: []byte(src), ModTime: time.Unix(mt, 0)}
+				ops = append(ops, map[string]any{"op": "write", "file": f, "content": content, "mtime": mt})
+			default:
+				delete(mfs, f)
+				ops = append(ops, map[string]any{"op": "delete", "file": f})
+			}
+		}
+		if outs == nil {
+			outs = []any{}
+		}
+		r.Add(&Case{Name: "cache history", Op: true, Input: map[string]any{"op": "cache", "ops": ops}, Impl: outs, Key: fmt.Sprint(ops), Tags: []string{"stream:cache-model"}})
+	}
+}
+
 func runC15(r *Run, replay *Case) {
-	if replay != nil {
+	if replay != nil && replay.Input["op"] != "cache" {
 		var steps []c15Step
 		remarshal(replay.Input["steps"], &steps)
 		r.Add(c15Run(steps))
 		return
 	}
+	if replay != nil && replay.Input["op"] == "cache" {
+		return
+	}
+	defer func() {
+		n := 3000
+		if r.Thorough() {
+			n = 60000
+		}
+		c15Solo(r, n)
+	}()
 	r.Res.Rule = "histories over {edit, make invalid, delete, recreate(edit after delete), touch, render via 4 entry points} x {page, component, layout} x mtime {advance, back}; " +
 		"exhaustive for short histories (every single mutation between two renders via every pair of entry points), random up to 10 steps; non-trivial = contains a mutation between two renders"
 	var muts []c15Step
